@@ -19,8 +19,11 @@
 (*   Trash       lock, OpenFile, lockfile, Stat BY PATH -> decide,         *)
 (*               Rename | Remove, [deferred unlocks]                       *)
 (*   WriteBlock  IsFull, MkdirAll, TempFile, lock, Copy, Write#1,          *)
-(*               tmpfile.Close, Chtimes(tmp), Rename(tmp -> block)         *)
-(*               -- takes NO flock (deliberate deviation, modelled as is)  *)
+(*               tmpfile.Close, Chtimes(tmp), OpenFile(block path; only if *)
+(*               something is there: lockfile = flock of the file being    *)
+(*               replaced), Rename(tmp -> block), [deferred unlock, Close] *)
+(*               (commit 6f6002f; constant WBFlock = FALSE gives the code  *)
+(*               before it, which took NO flock: KF-C04-1)                 *)
 (*   Compare     stat, getFunc (lock, Open, read+compare, unlock)          *)
 (*   Mtime       Stat                                                      *)
 (*   Untrash     ReadDir (sorted snapshot), Rename (first that works)      *)
@@ -34,8 +37,19 @@
 (*   t  DELETE     = Trash on every writable volume                        *)
 (*      trash item = request-age check, then per target volume: Mtime,     *)
 (*                   equality with the named timestamp, Trash              *)
+(*      pull  = pull-list item (pull_worker.go): the block is fetched from *)
+(*              another server, then Put on the named mount directly (NO   *)
+(*              CompareAndTouch: WriteBlock replaces whatever is there) or,*)
+(*              without a mount ("pull_any"), PutBlock as for PUT; nobody  *)
+(*              is acknowledged, so it protects nothing                    *)
 (*   x  untrash    = Untrash on every writable volume                      *)
 (*      empty      = EmptyTrash on every writable volume                   *)
+(*      index      = GET /index: IndexTo on every volume: Open(root),      *)
+(*                   Readdirnames, Open(block dir), Readdir(1) per entry   *)
+(*                   (names are a snapshot taken by the first call, each   *)
+(*                   name is lstat'ed when its turn comes, vanished names  *)
+(*                   are skipped), Close.  Lists names of 32 hex digits.   *)
+(*                   (The block directory of H exists on every volume.)    *)
 (*   Tick(d)       the virtual clock advances                              *)
 (*                                                                         *)
 (* Time.  Every timestamp the code takes is taken as `now` at the system   *)
@@ -44,13 +58,15 @@
 (*                                                                         *)
 (* The contract's variables are ghost state; every request call/return,    *)
 (* tick and scan performs the contract's bookkeeping (XEff) and `viol`     *)
-(* accumulates breaches of the contract's obligations (XOk).  The model    *)
-(* CONTAINS the genuine defect KF-C04-1 (PUT overwriting a corrupt old     *)
-(* replica races with Trash); `kf` marks the behaviours of that class.     *)
-(* It also contains KF-C04-2 (Untrash renames the trashed copy, with its   *)
+(* accumulates breaches of the contract's obligations (XOk).  KF-C04-1     *)
+(* (PUT overwriting a corrupt old replica races with Trash) was repaired   *)
+(* in commit 6f6002f; `kf` still marks behaviours with that step order     *)
+(* (Trash decided, WriteBlock renames, Trash renames) and the model shows  *)
+(* they now need an untrash in between (invariant RaceNeedsUntrash).       *)
+(* The model CONTAINS KF-C04-2 (Untrash renames the trashed copy, with its   *)
 (* old timestamp, OVER a block file that was written or touched since;     *)
-(* the next trash request removes it): `kf2`.  The checked invariant is    *)
-(* viol => kf \/ kf2.                                                      *)
+(* the next trash request removes it): `kf2`.  The checked invariants are  *)
+(* ~viol without an untrash actor and viol => kf2 with one.                *)
 (***************************************************************************)
 EXTENDS Integers, Sequences, FiniteSets, TLC, Json, IOUtils
 
@@ -59,9 +75,9 @@ CONSTANTS MinVols, MaxVols,   \* 1 or 2
           Lives,       \* set of BlobTrashLifetime values (0 = delete at once)
           Serial,      \* set of values of Serialize
           Trashing,    \* set of values of BlobTrash
-          WKinds,      \* subset of {"none", "put", "touch"}
+          WKinds,      \* subset of {"none", "put", "touch", "pull", "pull_any"}
           TKinds,      \* subset of {"none", "delete", "list_eq", "list_stale"}
-          XKinds,      \* subset of {"none", "untrash", "empty"}
+          XKinds,      \* subset of {"none", "untrash", "empty", "index"}
           MaxActors,   \* at most this many concurrent requests
           PreSet,      \* subset of {"none", "intact_old", "intact_young", "corrupt_old"}
           PreTrash,    \* subset of {"none", "live", "expired"}
@@ -74,6 +90,7 @@ CONSTANTS MinVols, MaxVols,   \* 1 or 2
                        \* behaviours are not replayable
           POR,         \* TRUE: an actor at an invisible step moves at once (Gen configurations)
           Filter,      \* "none" | "quick" | "thorough": which configurations a Gen run emits
+          WBFlock,     \* TRUE: WriteBlock flocks the file it replaces (the code since 6f6002f)
           NoLockSet,   \* {FALSE}; with TRUE also behaviours that IGNORE the flock guards ("lock probes")
           MaxHist
 
@@ -117,19 +134,28 @@ Abs == [v \in Vols |->
 (* so the run is safe; code that lost a flock does not block and the contract sees the race.       *)
 GenFilter(n, ser, life, wk, tk, xk, pre, pretr, ro, nl) ==
     LET notr == \A v \in 1 .. n : pretr[v] = "none"
-        probe == n = 1 /\ xk = "none" /\ wk # "none" /\ tk \in {"delete", "list_eq"} /\ ~ser /\ life = 2
-                 /\ pre[1] = "intact_old" /\ notr IN
+        probe == n = 1 /\ xk = "none" /\ wk \in {"put", "touch"} /\ tk \in {"delete", "list_eq"} /\ ~ser /\ life = 2
+                 /\ pre[1] \in {"intact_old", "corrupt_old"} /\ notr IN
     IF nl THEN Filter \in {"quick", "thorough"} /\ probe ELSE
     CASE Filter = "quick" ->
-           \/ (n = 1 /\ xk = "none" /\ wk # "none" /\ tk # "none" /\ notr)
+           \/ (n = 1 /\ xk = "none" /\ wk \in {"put", "touch"} /\ tk # "none" /\ notr)
            \/ (n = 2 /\ xk = "none" /\ wk = "put" /\ tk = "delete" /\ ~ser /\ life = 2 /\ ro = {} /\ notr
                  /\ \A v \in 1 .. n : pre[v] \in {"none", "corrupt_old"})
-           \/ (n = 1 /\ xk # "none" /\ ~ser /\ life = 2 /\ pre[1] = "intact_old" /\ pretr[1] # "none")
+           \/ (n = 1 /\ xk \in {"untrash", "empty"} /\ wk \in {"none", "put", "touch"} /\ ~ser /\ life = 2
+                 /\ pre[1] = "intact_old" /\ pretr[1] # "none")
+           \/ (n = 1 /\ xk = "index" /\ wk \in {"put", "pull"} /\ tk = "none" /\ ~ser /\ life = 2
+                 /\ pre[1] \in {"none", "corrupt_old"} /\ pretr[1] \in {"none", "live"})
+           \/ (n = 1 /\ xk = "none" /\ wk \in {"pull", "pull_any"} /\ tk = "delete" /\ ~ser /\ life = 2 /\ notr)
       [] Filter = "thorough" ->
-           \/ (n = 1 /\ xk = "none" /\ wk # "none" /\ tk # "none" /\ notr)
-           \/ (n = 2 /\ xk = "none" /\ wk # "none" /\ tk \in {"delete", "list_eq"} /\ ~ser /\ life = 2 /\ notr
+           \/ (n = 1 /\ xk = "none" /\ wk \in {"put", "touch"} /\ tk # "none" /\ notr)
+           \/ (n = 2 /\ xk = "none" /\ wk \in {"put", "touch"} /\ tk \in {"delete", "list_eq"} /\ ~ser /\ life = 2 /\ notr
                  /\ \A v \in 1 .. n : pre[v] \in {"none", "intact_old", "corrupt_old"})
-           \/ (n = 1 /\ xk # "none" /\ ~ser /\ life = 2 /\ pre[1] # "intact_young" /\ pretr[1] # "none")
+           \/ (n = 1 /\ xk \in {"untrash", "empty"} /\ wk \in {"none", "put", "touch"} /\ ~ser /\ life = 2
+                 /\ pre[1] # "intact_young" /\ pretr[1] # "none")
+           \/ (xk = "index" /\ wk \in {"none", "put", "pull"} /\ tk \in {"none", "delete"} /\ ~ser /\ life = 2
+                 /\ \A v \in 1 .. n : pre[v] # "intact_young" /\ pretr[v] # "expired")
+           \/ (xk = "none" /\ wk \in {"pull", "pull_any"} /\ tk \in {"delete", "list_eq"} /\ ~ser /\ life = 2 /\ notr
+                 /\ \A v \in 1 .. n : pre[v] # "intact_young")
       [] OTHER -> TRUE
 
 PreIno(p, v) == IF p = "intact_old" THEN [mt |-> v, mtu |-> 0 - (TTL + 1), ok |-> TRUE, lock |-> "none"]
@@ -146,7 +172,9 @@ Init ==
         /\ (wk # "none" \/ tk # "none" \/ xk # "none")
         /\ Cardinality({a \in {<<1, wk>>, <<2, tk>>, <<3, xk>>} : a[2] # "none"}) <= MaxActors
         \* a trash-list item names the timestamp of the copy on volume rv (or a stale one)
-        /\ IF tk \in {"list_eq", "list_stale"} THEN pre[rv] # "none" ELSE rv = 1
+        /\ IF tk \in {"list_eq", "list_stale"} THEN pre[rv] # "none"
+           ELSE IF wk = "pull" THEN rv \notin ro ELSE rv = 1
+        /\ ~(wk = "pull" /\ tk \in {"list_eq", "list_stale"} /\ rv \in ro)
         /\ cf = [n |-> n, ro |-> ro, ser |-> ser, life |-> life, trash |-> tr, wk |-> wk, tk |-> tk,
                  xk |-> xk, pre |-> pre, pretr |-> pretr, rv |-> rv, nl |-> nl,
                  req |-> IF tk = "list_eq" THEN [mt |-> rv, mtu |-> PreIno(pre[rv], rv).mtu]
@@ -193,21 +221,23 @@ MuxDrop(v)  == IF cf.ser THEN [mux EXCEPT ![v] = "none"] ELSE mux
 
 WVol == IF w.pc \in {"WriteBlock.IsFull", "WriteBlock.MkdirAll", "WriteBlock.TempFile", "WriteBlock.lock",
                      "WriteBlock.Copy", "WriteBlock.Write#1", "WriteBlock.tmpfile.Close",
-                     "WriteBlock.Chtimes", "WriteBlock.Rename"}
+                     "WriteBlock.Chtimes", "WriteBlock.OpenFile", "WriteBlock.lockfile", "WriteBlock.Rename"}
         THEN w.v ELSE IF w.vi \in 1 .. Len(Wr) THEN Wr[w.vi] ELSE 0
 
-WHead == IF cf.wk = "put" THEN "Compare.stat" ELSE "Touch.OpenFile"
+PutLike == cf.wk \in {"put", "pull_any"}
+WHead == IF PutLike THEN "Compare.stat" ELSE "Touch.OpenFile"
 
 (* this volume did not yield a success: next volume, or the write, or give up *)
 WAdvance(ww, status) ==
     IF ww.vi < Len(Wr) THEN [ww EXCEPT !.vi = @ + 1, !.pc = WHead, !.f = 0]
-    ELSE IF cf.wk = "put" THEN [ww EXCEPT !.pc = "WriteBlock.IsFull", !.v = NextWr, !.f = 0]
+    ELSE IF PutLike THEN [ww EXCEPT !.pc = "WriteBlock.IsFull", !.v = NextWr, !.f = 0]
     ELSE [ww EXCEPT !.pc = "done", !.st = status, !.f = 0]
 
 WStart ==
     /\ w.pc = "start"
-    /\ C!CallEff(1, cf.wk, 0, 0)
-    /\ w' = [w EXCEPT !.pc = WHead, !.vi = 1]
+    /\ C!CallEff(1, IF cf.wk = "pull_any" THEN "pull" ELSE cf.wk, 0, 0)
+    /\ w' = IF cf.wk = "pull" THEN [w EXCEPT !.pc = "WriteBlock.IsFull", !.v = cf.rv, !.vi = Len(Wr)]
+            ELSE [w EXCEPT !.pc = WHead, !.vi = 1]
     /\ Log("w", "start", 0)
     /\ UNCHANGED <<cf, disk, t, x, ticks, viol, kf, kf2, scanned>>
 
@@ -271,17 +301,28 @@ WStep ==
          [] w.pc = "WriteBlock.Chtimes" ->
               /\ ino' = [ino EXCEPT ![3].mt = stamp + 1, ![3].mtu = now]
               /\ stamp' = stamp + 1
-              /\ w' = [w EXCEPT !.pc = "WriteBlock.Rename"]
+              /\ w' = [w EXCEPT !.pc = IF WBFlock THEN "WriteBlock.OpenFile" ELSE "WriteBlock.Rename", !.f = 0]
               /\ UNCHANGED <<cvars, viol, dir, tdir, mux, kf, kf2>>
+         [] w.pc = "WriteBlock.OpenFile" ->
+              \* open the file being replaced, if there is one (w.f = its inode)
+              /\ w' = IF dir[v] = 0 THEN [w EXCEPT !.pc = "WriteBlock.Rename", !.f = 0]
+                      ELSE [w EXCEPT !.pc = "WriteBlock.lockfile", !.f = dir[v]]
+              /\ UNCHANGED <<cvars, viol, disk, kf, kf2>>
+         [] w.pc = "WriteBlock.lockfile" ->
+              /\ (cf.nl \/ ino[w.f].lock = "none")
+              /\ ino' = [ino EXCEPT ![w.f].lock = "w"]
+              /\ w' = [w EXCEPT !.pc = "WriteBlock.Rename"]
+              /\ UNCHANGED <<cvars, viol, dir, tdir, mux, stamp, kf, kf2>>
          [] w.pc = "WriteBlock.Rename" ->
-              \* rename(tmp, block path): replaces whatever is there, without any flock
+              \* rename(tmp, block path): replaces whatever is there; then the deferred unlock / close
               /\ dir' = [dir EXCEPT ![v] = 3]
+              /\ ino' = Unlock(ino, w.f)
               /\ mux' = MuxDrop(v)
               /\ kf' = (kf \/ (t.pc \in {"Trash.Rename", "Trash.Remove"} /\ t.v = v))
               /\ UNCHANGED kf2
               /\ w' = [w EXCEPT !.pc = "done", !.st = 200, !.f = 0]
               /\ Finish(1, w, w')
-              /\ UNCHANGED <<ino, tdir, stamp>>
+              /\ UNCHANGED <<tdir, stamp>>
 
 -----------------------------------------------------------------------------
 (* t: DELETE / one trash-list item *)
@@ -377,7 +418,7 @@ XAdvance(xx) ==
                            ELSE IF xx.nfail > 0 THEN 500 ELSE 200]
 
 XStart ==
-    /\ x.pc = "start"
+    /\ x.pc = "start" /\ cf.xk # "index"
     /\ C!CallEff(3, cf.xk, 0, 0)
     /\ x' = IF Len(Wr) = 0 THEN [x EXCEPT !.pc = "done0", !.st = 404]
             ELSE [x EXCEPT !.vi = 1, !.v = Wr[1],
@@ -396,6 +437,7 @@ Expired(S) == {e \in S : e.d <= now}
 
 XStep ==
     LET v == x.v IN
+    /\ cf.xk # "index"
     /\ x.pc \notin {"idle", "start", "done", "done0"}
     /\ Log("x", x.pc, v)
     /\ UNCHANGED <<cf, w, t, ticks, scanned, kf>>
@@ -433,6 +475,63 @@ XStep ==
               /\ UNCHANGED <<dir, ino, mux, stamp, kf2>>
 
 -----------------------------------------------------------------------------
+(* x: GET /index (IndexTo on every volume, in mount order) *)
+
+TmpOn(v) == w.v = v /\ w.pc \in {"WriteBlock.lock", "WriteBlock.Copy", "WriteBlock.Write#1", "WriteBlock.tmpfile.Close",
+                                  "WriteBlock.Chtimes", "WriteBlock.OpenFile", "WriteBlock.lockfile", "WriteBlock.Rename"}
+IdxNames(v) == (IF dir[v] # 0 THEN {[k |-> "H", d |-> 0]} ELSE {})
+               \cup {[k |-> "tr", d |-> e.d] : e \in tdir[v]}
+               \cup (IF TmpOn(v) THEN {[k |-> "tmp", d |-> 0]} ELSE {})
+IdxAlive(v, nm) == CASE nm.k = "H" -> dir[v] # 0
+                     [] nm.k = "tmp" -> TmpOn(v)
+                     [] OTHER -> \E e \in tdir[v] : e.d = nm.d
+IdxLabel(pc) == IF pc = "IndexTo.Open2" THEN "IndexTo.Open"
+                ELSE IF pc = "IndexTo.rootdir.Readdirnames2" THEN "IndexTo.rootdir.Readdirnames" ELSE pc
+(* the lines of the response that name H: x.nf of them, x.nfail of which are not a complete block *)
+IdxEntries(xx) == [i \in 1 .. xx.nf |-> IF i <= xx.nfail THEN "other" ELSE "complete"]
+
+IStart ==
+    /\ x.pc = "start" /\ cf.xk = "index"
+    /\ C!CallEff(3, "index", 0, 0)
+    /\ x' = [x EXCEPT !.pc = "IndexTo.Open", !.vi = 1, !.v = 1, !.f = 0]
+    /\ Log("x", "start", 0)
+    /\ UNCHANGED <<cf, disk, w, t, ticks, viol, kf, kf2, scanned>>
+
+IStep ==
+    LET v == x.v IN
+    /\ cf.xk = "index"
+    /\ x.pc \notin {"idle", "start", "done", "done0"}
+    /\ Log("x", IdxLabel(x.pc), v)
+    /\ UNCHANGED <<cf, disk, w, t, ticks, scanned, kf, kf2>>
+    /\ CASE x.pc \in {"IndexTo.Open", "IndexTo.rootdir.Readdirnames", "IndexTo.Open2", "IndexTo.blockdir.Close"} ->
+              /\ x' = [x EXCEPT !.pc = CASE x.pc = "IndexTo.Open" -> "IndexTo.rootdir.Readdirnames"
+                                        [] x.pc = "IndexTo.rootdir.Readdirnames" -> "IndexTo.Open2"
+                                        [] x.pc = "IndexTo.Open2" -> "IndexTo.blockdir.Readdir"
+                                        [] OTHER -> "IndexTo.rootdir.Readdirnames2",
+                                 !.f = 0, !.snap = {}]
+              /\ UNCHANGED <<cvars, viol>>
+         [] x.pc = "IndexTo.blockdir.Readdir" ->
+              \* the first call takes the snapshot of names; each call returns the next name that still
+              \* exists (lstat by path), or EOF
+              LET snap0 == IF x.f = 0 THEN IdxNames(v) ELSE x.snap
+                  alive == {nm \in snap0 : IdxAlive(v, nm)} IN
+              /\ IF alive = {}
+                 THEN x' = [x EXCEPT !.pc = "IndexTo.blockdir.Close", !.snap = {}, !.f = 1]
+                 ELSE \E nm \in alive :
+                        x' = [x EXCEPT !.f = 1, !.snap = snap0 \ {nm},
+                                       !.nf = IF nm.k = "H" THEN @ + 1 ELSE @,
+                                       \* lstat by path: the size listed is that of whatever is there now
+                                       !.nfail = IF nm.k = "H" /\ dir[v] = 3 /\ ~ino[3].ok THEN @ + 1 ELSE @]
+              /\ UNCHANGED <<cvars, viol>>
+         [] x.pc = "IndexTo.rootdir.Readdirnames2" ->
+              IF v < cf.n
+              THEN /\ x' = [x EXCEPT !.pc = "IndexTo.Open", !.v = v + 1, !.f = 0]
+                   /\ UNCHANGED <<cvars, viol>>
+              ELSE /\ x' = [x EXCEPT !.pc = "done", !.st = 200]
+                   /\ C!RetEff(3, 200)
+                   /\ viol' = (viol \/ ~C!RetOk(3, 200) \/ ~C!IndexOk(IdxEntries(x)))
+
+-----------------------------------------------------------------------------
 AllDone == w.pc = "done" /\ t.pc = "done" /\ x.pc = "done"
 
 Tick(d) ==
@@ -457,6 +556,8 @@ FinalScan ==
 Invisible(pc) ==
     \/ pc \in {"WriteBlock.IsFull", "WriteBlock.MkdirAll", "WriteBlock.TempFile", "WriteBlock.Copy",
                "WriteBlock.Write#1", "WriteBlock.tmpfile.Close", "done0"}
+    \/ pc \in {"IndexTo.Open", "IndexTo.rootdir.Readdirnames", "IndexTo.Open2", "IndexTo.blockdir.Close",
+               "IndexTo.rootdir.Readdirnames2"}
     \/ (~cf.ser /\ pc \in {"WriteBlock.lock", "Touch.lock", "Trash.lock"})
     \/ (ticks >= MaxTicks /\ pc \in {"start", "WriteBlock.Chtimes"})
 
@@ -466,7 +567,7 @@ May(a) == ~POR \/ Forced \in {"-", a}
 
 Next == \/ (May("w") /\ (WStart \/ WStep))
         \/ (May("t") /\ (TStart \/ TReturn0 \/ TStep))
-        \/ (May("x") /\ (XStart \/ XReturn0 \/ XStep))
+        \/ (May("x") /\ (XStart \/ XReturn0 \/ XStep \/ IStart \/ IStep))
         \/ (May("-") /\ \E d \in TickSizes : Tick(d))
         \/ FinalScan
 
@@ -479,24 +580,31 @@ TypeOK == /\ \A v \in Vols : dir[v] \in 0 .. 5 /\ mux[v] \in {"none", "w", "t"}
           /\ w.pc \notin {"idle"} /\ viol \in BOOLEAN
 
 (* The model satisfies the contract except in behaviours of the known class KF-C04-1 *)
-ContractHolds == viol => (kf \/ kf2)
-(* ... and it does contain that defect (checked to FAIL, see checks/C04.py) *)
+ContractHolds == viol => kf2
+(* without an untrash request the contract holds outright (since 6f6002f); with WBFlock = FALSE   *)
+(* (the code before it) this is refuted: MC_C04_nofix.cfg, checked to FAIL in checks/C04.py         *)
 NoViolation == ~viol
+(* the step order of KF-C04-1 is now possible only when an untrash replaced the file in between     *)
+RaceNeedsUntrash == kf => kf2
 
 (* AckedSurvives at step granularity: while the block is protected and no PUT is replacing it,    *)
 (* some volume has a directory entry for it (the contract's clause (a) in every state).          *)
-AckedSurvives == (now < prot /\ ~kf /\ ~kf2) => \E v \in Vols : dir[v] # 0
+AckedSurvives == (now < prot /\ ~kf2) => \E v \in Vols : dir[v] # 0
 
 (* lock discipline: a flock is held only by an actor inside Touch / Trash on that inode *)
 LockDiscipline ==
-    \A i \in Inodes : /\ ino[i].lock = "w" => (w.f = i /\ w.pc = "Touch.Chtimes")
+    \A i \in Inodes : /\ ino[i].lock = "w" => (w.f = i /\ w.pc \in {"Touch.Chtimes", "WriteBlock.Rename"})
                       /\ ino[i].lock = "t" => (t.f = i /\ t.pc \in {"Trash.Stat", "Trash.Remove", "Trash.Rename"})
 MutexDiscipline ==
     \A v \in Vols : /\ mux[v] = "w" => w.pc \in {"Touch.lockfile", "Touch.Chtimes", "WriteBlock.Copy",
                                                  "WriteBlock.Write#1", "WriteBlock.tmpfile.Close",
-                                                 "WriteBlock.Chtimes", "WriteBlock.Rename"}
+                                                 "WriteBlock.Chtimes", "WriteBlock.OpenFile", "WriteBlock.lockfile",
+                                                 "WriteBlock.Rename"}
                     /\ mux[v] = "t" => t.pc \in {"Trash.OpenFile", "Trash.lockfile", "Trash.Stat",
                                                  "Trash.Remove", "Trash.Rename"}
+
+(* GET /index lists only complete blocks, whatever runs concurrently *)
+IndexComplete == x.nfail = 0 \/ cf.xk # "index"
 
 (* no deadlock: unless everything is finished some step is possible *)
 Progress == scanned \/ ENABLED Next
